@@ -16,6 +16,8 @@
 (*   "postings"  every posting spelling (indent, status, virtual kinds,    *)
 (*               account, gap, cost, assertion, comment, comment lines)    *)
 (*   "pairs"     every ordered pair of entries from a menu of constructs   *)
+(*   "lexicon"   generated accounts (72 two-segment names) and quoted        *)
+(*               commodities (12) in every position                        *)
 (*   "desc-chars" every description of <= 3 characters over 22 character   *)
 (*               classes, after a bare date, a status and a code           *)
 (*   "random"    RandomElement-drawn journals of 1..MaxEntries entries     *)
@@ -69,6 +71,22 @@ CSeqs(k, n) == IF n = 0 THEN {<<>>} ELSE LET S == CSeqs(k, n - 1) IN S \cup { Ap
 FamDescChars(u) ==
     { Case("desc-chars", "", << [BaseTx EXCEPT !.st = s, !.code = c, !.desc = [kind |-> "chars", cs |-> cs, i |-> 1, j |-> 1]] >>) :
           s \in {"", "*"}, c \in {0, 1}, cs \in { x \in CSeqs(Len(DescAlphabet), IF MaxEntries > 3 THEN 3 ELSE MaxEntries) : DescCharsOK(x) } }
+
+(* every generated account as a real / parenthesised / bracketed posting with and without an amount; every generated quoted
+   commodity on either side of the quantity, as amount, as cost and as assertion *)
+GenBase == Len(Accounts) + Len(AccountsExtra)
+FamLexicon(u) ==
+    { Case("acct-gen", "", << [BaseTx EXCEPT !.posts[1].acct = GenBase + k, !.posts[1].kind = kd, !.posts[2].acct = GenBase + ((k % Len(AccountsGen)) + 1),
+                                            !.posts[2].kind = kd2] >>) :
+          k \in 1..Len(AccountsGen), kd \in {"real", "paren", "bracket"}, kd2 \in {"real", "bracket"} }
+    \cup { Case("comm-gen", "", << [BaseTx EXCEPT !.posts[1].amt = <<[Amt(5, 0, Len(Commodities) + k) EXCEPT !.side = sd, !.sp = TRUE]>>] >>) :
+             k \in 1..Len(CommoditiesGen), sd \in {"L", "R"} }
+    \cup { Case("comm-gen", "", << [BaseTx EXCEPT !.posts[1].cost = <<[total |-> t, a |-> [Amt(15, 1, Len(Commodities) + k) EXCEPT !.side = sd, !.sp = TRUE]]>>] >>) :
+             k \in 1..Len(CommoditiesGen), sd \in {"L", "R"}, t \in BOOLEAN }
+    \cup { Case("comm-gen", "", << [BaseTx EXCEPT !.posts[1].asrt = <<[strict |-> FALSE, a |-> [Amt(100, 0, Len(Commodities) + k) EXCEPT !.side = sd, !.sp = TRUE]]>>] >>) :
+             k \in 1..Len(CommoditiesGen), sd \in {"L", "R"} }
+    \cup { Case("comm-gen", "", << [dir |-> "commodity", comm |-> Len(Commodities) + k, form |-> "plain", fmt |-> 1], BaseTx >>) : k \in 1..Len(CommoditiesGen) }
+    \cup { Case("acct-gen", "", << [dir |-> "account", acct |-> GenBase + k, cmt |-> NoCmt], BaseTx >>) : k \in 1..Len(AccountsGen) }
 
 PCosts == { <<>>, <<[total |-> FALSE, a |-> Amt(15, 1, 2)]>>, <<[total |-> TRUE, a |-> [Amt(1050, 2, 1) EXCEPT !.side = "L", !.sp = FALSE]]>> }
 PAsrts == { <<>>, <<[strict |-> FALSE, a |-> Amt(100, 0, 4)]>>, <<[strict |-> TRUE, a |-> [Amt(100, 0, 1) EXCEPT !.side = "L", !.sp = FALSE, !.neg = TRUE]]>> }
@@ -150,6 +168,7 @@ FamilySet(u) == CASE Family = "amounts"  -> FamAmounts(0)
                [] Family = "postings" -> FamPostings(0)
                [] Family = "pairs"    -> FamPairs(0)
                [] Family = "desc-chars" -> FamDescChars(0)
+               [] Family = "lexicon"    -> FamLexicon(0)
                [] OTHER               -> {}
 
 Init == IF Family = "random" THEN cas = <<>> /\ stg = 0 ELSE cas \in FamilySet(0) /\ stg = 1
